@@ -52,10 +52,16 @@ package netpoll
 //
 //@ func (p *Poller) Delete(fd int) (err error)
 //@   requires p != nil && owner[fd] != nil
-//@   modifies polled[fd], armed[fd]
+//@   modifies polled[fd], armed[fd], delreq[fd]
+//@   ensures delreq[fd]
 //@   ensures err == nil ==> !polled[fd] && !armed[fd]
 //@   ensures err != nil ==> polled[fd] == old(polled[fd]) && armed[fd] == old(armed[fd])
 //@   ensures err != errorx.ErrEngineShutdown
+//
+// OpenPoller: a new epoll instance with its eventfd and task queues (kernel interface, not verified): a poller or an error.
+//@ func OpenPoller() (poller *Poller, err error)
+//@   noverify epoll_create1 / eventfd set-up (kernel interface)
+//@   ensures err == nil ==> poller != nil && fresh(poller)
 //
 // Trigger: the task is queued for the loop that owns the poller and runs there later, once (property C03, assumed).
 // trigprio: priority class of the request queued last (bookkeeping ghost): requests of one class are executed in issue order.
